@@ -39,3 +39,69 @@ where
 {
     IntOrString::deserialize(deserializer).map(String::from)
 }
+
+/// The Rust types an `ID` field can have: `String` under any nesting of `Option`, `Vec` and `Box`.
+pub trait NestedId<'de>: Sized {
+    /// Deserialize `Self`, accepting an integer or a string wherever an ID is expected.
+    fn deserialize_nested_id<D>(deserializer: D) -> Result<Self, D::Error>
+    where
+        D: Deserializer<'de>;
+}
+
+struct NestedIdWrapper<T>(T);
+
+impl<'de, T: NestedId<'de>> Deserialize<'de> for NestedIdWrapper<T> {
+    fn deserialize<D>(deserializer: D) -> Result<Self, D::Error>
+    where
+        D: Deserializer<'de>,
+    {
+        T::deserialize_nested_id(deserializer).map(NestedIdWrapper)
+    }
+}
+
+impl<'de> NestedId<'de> for String {
+    fn deserialize_nested_id<D>(deserializer: D) -> Result<Self, D::Error>
+    where
+        D: Deserializer<'de>,
+    {
+        deserialize_id(deserializer)
+    }
+}
+
+impl<'de, T: NestedId<'de>> NestedId<'de> for Option<T> {
+    fn deserialize_nested_id<D>(deserializer: D) -> Result<Self, D::Error>
+    where
+        D: Deserializer<'de>,
+    {
+        Option::<NestedIdWrapper<T>>::deserialize(deserializer).map(|opt| opt.map(|w| w.0))
+    }
+}
+
+impl<'de, T: NestedId<'de>> NestedId<'de> for Vec<T> {
+    fn deserialize_nested_id<D>(deserializer: D) -> Result<Self, D::Error>
+    where
+        D: Deserializer<'de>,
+    {
+        Vec::<NestedIdWrapper<T>>::deserialize(deserializer)
+            .map(|items| items.into_iter().map(|w| w.0).collect())
+    }
+}
+
+impl<'de, T: NestedId<'de>> NestedId<'de> for Box<T> {
+    fn deserialize_nested_id<D>(deserializer: D) -> Result<Self, D::Error>
+    where
+        D: Deserializer<'de>,
+    {
+        T::deserialize_nested_id(deserializer).map(Box::new)
+    }
+}
+
+/// Deserialize lists of IDs (any nesting of lists and nullability), where each ID can be an
+/// integer or a string.
+pub fn deserialize_nested_id<'de, D, T>(deserializer: D) -> Result<T, D::Error>
+where
+    D: Deserializer<'de>,
+    T: NestedId<'de>,
+{
+    T::deserialize_nested_id(deserializer)
+}
